@@ -100,6 +100,7 @@ class Rec:
         self.none_sources: set[int] = set()   # sources whose raw reading is None ("no value")
         self.last_none: int | None = None     # … and the one that returned None last
         self.styles: dict[int, str] = {}
+        self.raise_setup: set[int] = set()    # leaves whose setup() raises (after having been recorded)
 
     def ev(self, *x) -> None:
         self.log.append(tuple(x))
@@ -198,6 +199,8 @@ def make_classes():
         def setup(self):
             self._rec.ev("setup", self._lid)
             super().setup()
+            if self._lid in self._rec.raise_setup:
+                raise RuntimeError(f"setup of leaf {self._lid} fails")
 
         def teardown(self):
             self._rec.ev("teardown", self._lid)
@@ -1070,6 +1073,73 @@ def suite_random(ctx: Ctx) -> SuiteResult:
     return res
 
 
+def failing_setup_case(t, bad: int, everyone=None) -> list[Violation]:
+    if everyone is None:
+        rec = Rec()
+        inter = build(t, rec)
+        inter.setup()
+        rec.take()
+        inter.teardown()
+        everyone = [x[1] for x in rec.take() if x[0] == "teardown"]
+    rec2 = Rec()
+    rec2.raise_setup = {bad}
+    inter2 = build(t, rec2)
+    try:
+        inter2.setup()
+    except RuntimeError:
+        pass
+    log1 = rec2.take()
+    inter2.teardown()
+    log2 = rec2.take()
+    case = {"tree": t, "failing_setup": bad, "kind": "failing-setup"}
+    counts = Counter(x[1] for x in log1 + log2 if x[0] == "teardown")
+    scount = Counter(x[1] for x in log1 if x[0] == "setup")
+    if any(c > 1 for c in counts.values()) or any(c > 1 for c in scount.values()):
+        return [Violation("tree:event-more-often-than-issued",
+                          f"setup of leaf {bad} raises; after one setup and one teardown issued at the root the leaves saw "
+                          f"teardown {dict(counts)} and setup {dict(scount)} times", case)]
+    if sorted(counts) != sorted(set(everyone)):
+        return [Violation("tree:teardown-not-everywhere",
+                          f"setup of leaf {bad} raises; the teardown issued afterwards reached {sorted(counts)}, "
+                          f"not every leaf {sorted(set(everyone))}", case)]
+    return []
+
+
+def suite_failing_setup(ctx: Ctx) -> SuiteResult:
+    """One leaf's `setup()` raises; the owner then issues `teardown` once (what the inference thread does in its
+    `finally`): no component sees an event more often than it was issued at the root. Monitor only - the model has no
+    failing callbacks."""
+    res = SuiteResult("tree-failing-setup",
+                      rule="random trees; the setup() of one leaf raises; root.setup() (the exception comes out), then "
+                           "root.teardown() once: every leaf sees setup at most once and teardown at most once, and "
+                           "teardown reaches every leaf; monitor only; non-trivial = the failing leaf is not the first "
+                           "to be set up")
+    rng = ctx.rng
+    for k in range(ctx.n(120, 2000)):
+        t = ["I", rand_agent(rng, rng.randint(0, 3), 3), rand_env(rng, rng.randint(0, 3), 3)]
+        t = make_case(t, rng, salt=rng.randrange(1000), malformed=0.0, shuffle=False)["tree"]     # numbered leaves
+        rec = Rec()
+        inter = build(t, rec)
+        inter.setup()
+        order = [x[1] for x in rec.take() if x[0] == "setup"]
+        inter.teardown()
+        everyone = [x[1] for x in rec.take() if x[0] == "teardown"]
+        if not order:
+            continue
+        bad = rng.choice(order)
+        res.evaluations += 1
+        if order.index(bad) > 0:
+            res.nontrivial.add((shape_key(t), order.index(bad)))
+        vs = failing_setup_case(t, bad, everyone)
+        res.hit("violation" if vs else "ok")
+        res.violations += vs
+    res.sample({"tree": term(t)})
+    return res
+
+
+suite_failing_setup.needs_driver = False
+
+
 MALFORMED = [
     "tree reset I(A1{x:A2{},x:A3{}},E4)",            # duplicate child name
     "tree reset I(A1{},EM(SD{a:S2,a:S3},C4))",       # duplicate sensor name
@@ -1258,6 +1328,10 @@ def search(ctx: Ctx, disagreements, broken):
 def replay(ctx: Ctx, payload: dict) -> SuiteResult:
     res = SuiteResult("replay")
     case = payload.get("case") or payload.get("first_disagreement")
+    if case.get("kind") == "failing-setup":
+        res.violations = failing_setup_case(case["tree"], case["failing_setup"])
+        res.evaluations = 1
+        return res
     vs, d, info = run_any(case, ctx.driver)
     res.evaluations = 1
     res.violations = vs
@@ -1276,7 +1350,7 @@ if __name__ == "__main__":
                            "Pamiq.Tree.save_never_fails", "Pamiq.Tree.data_path_observe",
                            "Pamiq.Tree.data_path_affect", "Pamiq.Tree.dict_routes_read",
                            "Pamiq.Tree.dict_routes_operate"],
-        suites=[suite_corpus, suite_malformed, suite_exhaustive, suite_random, suite_launch],
+        suites=[suite_corpus, suite_malformed, suite_exhaustive, suite_random, suite_failing_setup, suite_launch],
         search=search, replay=replay,
         assumptions=["child names are single path components (no separator, not '.' or '..'): the "
                      "model's paths are lists of components",
